@@ -35,7 +35,7 @@ pub fn run_stream(
 ) -> bool {
     // async engines: all cases of the input run on one single-threaded ntex runtime
     let lines: Vec<String> = match name {
-        "respq" | "selftest" | "sink3" | "sink5" | "inb3" | "inb5" | "cli3" | "cli5" | "hs" | "iostate" | "timerrt" | "plstop3" | "plstop5" | "ctlwrap3" | "ctlwrap5" => {
+        "respq" | "selftest" | "sink3" | "sink5" | "inb3" | "inb5" | "inb3b" | "inb5b" | "cli3" | "cli5" | "hs" | "iostate" | "timerrt" | "plstop3" | "plstop5" | "ctlwrap3" | "ctlwrap5" => {
             let mut text = String::new();
             inp.read_to_string(&mut text).unwrap();
             text.lines().map(str::to_string).collect()
@@ -85,8 +85,8 @@ pub fn run_stream(
         }
         return true;
     }
-    if name == "inb3" || name == "inb5" {
-        for l in inbound::run_lines(name == "inb5", lines) {
+    if name == "inb3" || name == "inb5" || name == "inb3b" || name == "inb5b" {
+        for l in inbound::run_lines(name.starts_with("inb5"), lines) {
             writeln!(out, "{l}").unwrap();
         }
         return true;
